@@ -767,7 +767,7 @@ func c16Run(c *core.Ctx) {
 }
 
 func c16Replay(c *core.Ctx, payload json.RawMessage) {
-	if c16InvocationsReplay(c, payload) || c16RepoReplay(c, payload) || c16BlocksReplay(c, payload) || c16SharedReplay(c, payload) || c16MagnitudeReplay(c, payload) {
+	if c16InvocationsReplay(c, payload) || c16RepoReplay(c, payload) || c16BlocksReplay(c, payload) || c16SharedReplay(c, payload) || c16ReleasedReplay(c, payload) || c16MagnitudeReplay(c, payload) {
 		return
 	}
 	var np struct {
